@@ -15,6 +15,23 @@ class Inconclusive(Exception):
     """harness / tool failure: exit 2, never a violation"""
 
 
+def run_group(cmd, cwd, env, timeout, logp):
+    """run a command in its own process group with the output in a file; on a timeout the whole group is killed
+    (`tlc` is a wrapper script around the JVM).  Returns (exit status or -9, output)"""
+    with open(logp, "w") as lf:
+        pr = subprocess.Popen(cmd, cwd=cwd, env=env, stdout=lf, stderr=subprocess.STDOUT, start_new_session=True)
+        try:
+            rc = pr.wait(timeout=timeout)
+        except subprocess.TimeoutExpired:
+            try:
+                os.killpg(pr.pid, 9)
+            except ProcessLookupError:
+                pass
+            pr.wait()
+            rc = -9
+    return rc, open(logp, errors="replace").read()
+
+
 class Work:
     def __init__(self, prop, tier):
         self.prop, self.tier = prop, tier
@@ -107,15 +124,7 @@ class Work:
             cmd += ["-dumpTrace", "json", ce]
         cmd += (extra or []) + [module + ".tla"]
         t0 = time.time()
-        try:
-            r = subprocess.run(cmd, cwd=d, env=e, capture_output=True, text=True, timeout=timeout)
-            out = r.stdout + r.stderr
-            rc = r.returncode
-        except subprocess.TimeoutExpired as ex:
-            out = (ex.stdout or b"").decode("utf8", "replace") if isinstance(ex.stdout, bytes) else (ex.stdout or "")
-            rc = -9
-        with open(os.path.join(d, "tlc.log"), "w") as f:
-            f.write(out)
+        rc, out = run_group(cmd, d, e, timeout, os.path.join(d, "tlc.log"))
         res = dict(name=name, rc=rc, wall=time.time() - t0, dir=d, log=os.path.join(d, "tlc.log"), ce=ce if os.path.exists(ce) else None,
                    timeout=(rc == -9))
         m = re.search(r"(\d+) states generated, (\d+) distinct states found, (\d+) states left", out)
